@@ -76,7 +76,12 @@ def defs(proto, maxel, outcomes, maxatt=4, enabled=True, backoffs="{0}", late=Fa
 
 
 HUNG = O(kind="hung")
+# transport outcomes of an HTTP attempt: temporary time-out (tmpnet), temporary NOT a time-out (tempnet), permanent
+# (permnet), connection closed (close), next to a few answers
+NET = [O(code=200), O(code=503), O(code=429, thr=1), O(code=400), O(kind="tmpnet"), O(kind="tempnet"), O(kind="permnet"), O(kind="close")]
 DEVIATIONS = [  # (deviation, proto, enabled, clause the monitor must report)
+    ("tempOnlyTimeout", "http", True, "gave-up-early"),
+    ("permRetried", "http", True, "retry-after-nonretryable"),
     ("headersOnRetry", "http", True, "headers-missing"),
     ("gzipFirstOnly", "grpc", True, "encoding-differs"),
     ("timeoutIgnored", "http", True, "attempt-beyond-timeout|blocked-beyond-max-elapsed"),
@@ -90,6 +95,9 @@ DEVIATIONS = [  # (deviation, proto, enabled, clause the monitor must report)
     ("ignoreCtxInWait", "http", True, "late-return-after-cancel|late-return-after-shutdown|attempt-after-cancel|attempt-after-shutdown"),
     ("retryDisabled", "grpc", False, "retry-when-disabled"),
 ]
+
+
+MUST_REPEAT = {"gave-up-early", "error-despite-success", "failure-not-reported", "prediction-mismatch"}
 
 
 def load_behaviours(path):
@@ -252,6 +260,17 @@ def directed(sid0, tol_us, xcfgs, grp0=1):
             maxint_us=4_000_000)
         add(exp, "cancel-in-flight", [item(kind="hold", stop="cancel")])
         add(exp, "shutdown-in-flight", [item(kind="hold", stop="shutdown")])
+        # transport faults injected through WithProxy: temporary but not a time-out -> retried; permanent -> reported at once
+        add(exp, "temporary-non-timeout-then-ok", [item(kind="tempnet"), item(code=200)],
+            want={"valid": True, "attempts": 2, "err": False, "handled": 0, "clock": 0})
+        add(exp, "temporary-non-timeout-twice", [item(code=503), item(kind="tempnet"), item(kind="tempnet"), item(code=200, partial=True)],
+            want={"valid": True, "attempts": 4, "err": False, "handled": 1, "clock": 0})
+        add(exp, "permanent-net-error", [item(kind="permnet"), item(code=200)],
+            want={"valid": True, "attempts": 1, "err": True, "handled": 0, "clock": 0})
+        add(exp, "permanent-net-error-on-retry", [item(code=429), item(kind="permnet"), item(code=200)],
+            want={"valid": True, "attempts": 2, "err": True, "handled": 0, "clock": 0})
+        add(exp, "temporary-non-timeout-disabled", [item(kind="tempnet"), item(code=200)], enabled=False,
+            want={"valid": True, "attempts": 1, "err": True, "handled": 0, "clock": 0})
         # a collector that never answers: the small explicit per-attempt timeout ends the attempt, the next one succeeds
         add(exp, "hung-then-ok", [item(kind="tmpnet"), item(code=200)], atto_us=400_000, tick_us=400_000)
         # ... and with a retryable answer first and the elapsed-time limit ending the call
@@ -337,6 +356,10 @@ def run(ctx):
         job("xcfgs", proto, "mc-%s-xcfgs" % proto,
             defs(proto, 2, ALPHA[proto] + ([HUNG] if proto == "grpc" else []), maxatt=3 if thorough else 2,
                  callto=3 if proto == "grpc" else 0, xcfgs=XCFGS_ALL), want_edges=True, timeout=3000)
+    # HTTP transport faults on any attempt: temporary (time-out / not a time-out), permanent, connection closed
+    for maxel in (0, 2):
+        job("export", "http", "mc-http-net-me%d" % maxel, defs("http", maxel, NET, maxatt=4), want_edges=True, timeout=1500)
+    job("export", "http", "mc-http-net-disabled", defs("http", 0, NET, maxatt=2, enabled=False), want_edges=True, timeout=600)
     # gRPC export timeout (bounds the whole call) and a collector that never answers
     for maxel in (0, 2):
         job("export", "grpc", "mc-grpc-cto3-me%d" % maxel, defs("grpc", maxel, ALPHA["grpc"] + [HUNG], maxatt=4 if thorough else 3, callto=3),
@@ -346,8 +369,9 @@ def run(ctx):
     # the monitor must notice seeded deviations of the loop (guards against a vacuous contract)
     for dev, proto, enabled, clause in DEVIATIONS:
         grpc_to = dev == "timeoutIgnored" and proto == "grpc"
+        alpha = NET if dev in ("tempOnlyTimeout", "permRetried") else ALPHA[proto] + ([HUNG] if grpc_to else [])
         job("dev:" + dev + ":" + clause, proto, "dev-%s-%s" % (dev, proto),
-            defs(proto, 2, ALPHA[proto] + ([HUNG] if grpc_to else []), maxatt=3, enabled=enabled, dev=dev, callto=3 if grpc_to else 0,
+            defs(proto, 2, alpha, maxatt=3, enabled=enabled, dev=dev, callto=3 if grpc_to else 0,
                  xcfgs=tset([X(0), X(1, gzip=True)])), must_pass=False, count=False, timeout=600)
 
     def run_job(j):
@@ -496,13 +520,17 @@ def run(ctx):
             if vv["kind"] in ("throttle-not-honoured", "retry-after-nonretryable", "failure-not-reported", "gave-up-early",
                               "nil-without-success", "error-despite-success"):
                 sig["code"] = vv["code"]
+                if vv["lastkind"] != "status":
+                    sig["outcome"] = vv["lastkind"]   # transport-level outcome (tmpnet / tempnet / permnet / hung / close)
             if vv["kind"] == "cfg-dependent-outcome":
                 sig["case"] = cfg.get("name")
             if vv["kind"] == "attempt-after-max-elapsed":
                 # x = collector-side elapsed + throttle; was the limit exceeded only because of the server-supplied delay?
                 sig["why"] = "throttle" if vv["x"] - vv["thr"] <= cfg.get("maxel", 0) and vv["thr"] > 0 else "elapsed"
             replay = {"violation": v, "scenario": by_id.get(v["sc"]) or cfg, "events": evs}
-            if vv["soft"]:
+            # soft clauses (upper bounds) and the clauses that presuppose a reliable loopback transport (an attempt that
+            # fails inside the client before reaching the collector looks like a give-up / an unreported answer) must repeat
+            if vv["soft"] or vv["kind"] in MUST_REPEAT:
                 soft_pending.setdefault((v["sc"], vv["kind"]), (by_id.get(v["sc"]), sig, replay))
                 continue
             ctx.violation(sig, replay=replay)
@@ -561,7 +589,7 @@ def run(ctx):
     ctx.extra["counters"] = counters
     ctx.extra["violation_kinds_seen"] = kinds
     # vacuity of the drivers: the interesting regimes must have been reached
-    for need in ("item_throttled", "item_hold", "item_tmpnet", "item_hung", "stop_cancel", "stop_shutdown", "exp_tracehttp",
+    for need in ("item_throttled", "item_hold", "item_tmpnet", "item_tempnet", "item_permnet", "item_hung", "stop_cancel", "stop_shutdown", "exp_tracehttp",
                  "exp_tracegrpc", "exp_metrichttp", "exp_metricgrpc", "exp_loghttp", "exp_loggrpc", "xcfg_headers0", "xcfg_headers1",
                  "xcfg_headers3", "xcfg_gzip", "xcfg_env", "xcfg_timeout_explicit", "xcfg_timeout_default"):
         if not counters.get(need):
@@ -570,7 +598,9 @@ def run(ctx):
     ctx.assumptions += [
         "collector and caller share one process clock; arrivals/returns rounded up, responses/calls rounded down (1 us)",
         "upper bounds (prompt return after cancel/shutdown/final response, elapsed-time limit) use a 1 s tolerance and must repeat in 2 sequential re-runs",
-        "a temporary network error is produced as a per-attempt client timeout (http.Client.Timeout) against a collector that does not answer",
+        "temporary network errors: a per-attempt client timeout (http.Client.Timeout) against a collector that does not answer, and a "
+        "temporary non-timeout / a permanent transport error returned by the exporter's WithProxy hook (HTTP only; gRPC transport faults "
+        "are the library's business and appear as status codes)",
         "exporter Shutdown counts as 'shut down' once Shutdown has returned; exporters whose Shutdown waits for the running export satisfy the clause trivially",
         "payload identity on gRPC is the digest of the deterministic re-marshalling of the received message",
         "TLC alphabets use representative codes; the harness concretizes them per statement class, the contract re-classifies the concrete code",
